@@ -21,7 +21,10 @@
 package c18
 
 import (
+	"archive/zip"
+	"bytes"
 	"fmt"
+	"io"
 	"os"
 	"path/filepath"
 	"strings"
@@ -33,6 +36,7 @@ import (
 	"github.com/tsawler/tabula/xlsx"
 
 	"verifharness/fw"
+	"verifharness/gen/ooxml"
 )
 
 const (
@@ -391,6 +395,199 @@ func runPackage(c *fw.Ctx, idx int, o genOpts, record bool) ([]failure, *pkgMode
 	return k.fails, m, detail
 }
 
+// runDamagedPart: a conforming package in which one declared part (not the last)
+// is cut off in the middle of its XML. Whether the reader drops that part or shows
+// what stands in front of the cut is not judged (nor is the resulting page count);
+// what every view shows on one page still belongs to one part, whole-document
+// views keep the declared order, and the intact parts are shown completely.
+func runDamagedPart(c *fw.Ctx, idx int) {
+	id := fmt.Sprintf("dmg:%d", idx)
+	if !c.Want(id) {
+		return
+	}
+	data, m := gen(c, 200000+idx, genOpts{})
+	zr, err := zip.NewReader(bytes.NewReader(data), int64(len(data)))
+	if err != nil {
+		return
+	}
+	r := c.Rand("dmg", idx)
+	var cand []int
+	for i, p := range m.Parts {
+		if !p.Missing && i < len(m.Parts)-1 {
+			cand = append(cand, i)
+		}
+	}
+	if len(cand) == 0 {
+		return
+	}
+	victim := cand[r.Intn(len(cand))]
+	var members []ooxml.PartMember
+	cut := false
+	for _, f := range zr.File {
+		rc, err := f.Open()
+		if err != nil {
+			return
+		}
+		b, _ := io.ReadAll(rc)
+		rc.Close()
+		if f.Name == m.Parts[victim].Path && len(b) > 200 {
+			// behind the first token of the part, in the middle of what follows
+			at := len(b) / 2
+			if ts := fw.FindTokens(string(b)); len(ts) > 0 {
+				if k := bytes.Index(b, []byte(ts[0])); k > 0 && k+fw.TokenLen+40 < len(b) {
+					at = k + fw.TokenLen + 20 + r.Intn(len(b)-k-fw.TokenLen-30)
+				}
+			}
+			b = b[:at]
+			cut = true
+		}
+		members = append(members, ooxml.PartMember{Name: f.Name, Data: b, Store: f.Method == zip.Store})
+	}
+	if !cut {
+		return
+	}
+	path := filepath.Join(c.Work, fmt.Sprintf("c18-dmg-%d.%s", idx, m.Format))
+	if os.WriteFile(path, ooxml.PartZip(members), 0o644) != nil {
+		return
+	}
+	defer os.Remove(path)
+	detail := map[string]any{"format": m.Format, "features": m.Features, "declared_order": m.Declared, "damaged_part": m.Parts[victim].Path}
+	c.Case(fmt.Sprintf("dmg|%d|%s|%d", idx, m.Format, victim), true)
+	c.Seen("damaged_part_format", m.Format)
+	own := map[string]int{}
+	for i, p := range m.Parts {
+		for _, t := range append(append([]string{}, p.Req...), p.Opt...) {
+			own[t] = i
+		}
+	}
+	var fails []failure
+	fail := func(class, format string, a ...any) {
+		if len(fails) < 6 {
+			fails = append(fails, failure{m.Format + "/damaged-neighbour/" + class, fmt.Sprintf("(declared part #%d %s is cut off) ", victim+1, m.Parts[victim].Path) + fmt.Sprintf(format, a...)})
+		}
+	}
+	unit := func(view string, j int, text string) {
+		first := -1
+		for _, t := range fw.FindTokens(text) {
+			o, ok := own[t]
+			if !ok {
+				if w, isF := m.Foreign[t]; isF {
+					fail(view+"/foreign-text", "%s: unit %d shows %q, a token of %s", view, j+1, t, w)
+				}
+				continue
+			}
+			if first < 0 {
+				first = o
+			} else if o != first {
+				fail(view+"/mixed-parts", "%s: unit %d shows tokens of declared parts #%d and #%d together; declared order is %s", view, j+1, first+1, o+1, m.Declared)
+				return
+			}
+		}
+	}
+	stream := func(view, text string) {
+		seen := map[string]bool{}
+		last := -1
+		for _, t := range fw.FindTokens(text) {
+			seen[t] = true
+			if o, ok := own[t]; ok {
+				if o < last {
+					fail(view+"/order", "%s shows %q of declared part #%d after text of part #%d; declared order is %s", view, t, o+1, last+1, m.Declared)
+					return
+				}
+				last = o
+			}
+		}
+		for i, p := range m.Parts {
+			if i == victim || p.Missing {
+				continue
+			}
+			for _, t := range p.Req {
+				if !seen[t] {
+					fail(view+"/missing-text", "%s does not show %q of the intact declared part #%d (%s)", view, t, i+1, p.Path)
+					return
+				}
+			}
+		}
+	}
+	c.Guard("damaged-part", id, detail, func() {
+		ext := tabula.Open(path)
+		txt, _, err := ext.Text()
+		ext.Close()
+		if err != nil {
+			c.Count("damaged_part_packages_refused", 1)
+			return
+		}
+		c.Count("damaged_part_packages_read", 1)
+		stream("Text()", txt)
+		ext = tabula.Open(path)
+		doc, _, err := ext.Document()
+		ext.Close()
+		if err == nil && doc != nil {
+			for j, p := range doc.Pages {
+				unit("Document().Pages", j, pageText(p))
+			}
+		}
+		ext = tabula.Open(path)
+		md, _, err := ext.ToMarkdown()
+		ext.Close()
+		if err == nil {
+			stream("ToMarkdown()", md)
+		}
+		switch m.Format {
+		case "pptx":
+			if pr, err := pptx.Open(path); err == nil {
+				defer pr.Close()
+				for j := 0; j < pr.SlideCount(); j++ {
+					if s, err := pr.Slide(j); err == nil && s != nil {
+						var sb strings.Builder
+						sb.WriteString(s.Title + "\n")
+						for _, b := range s.Content {
+							sb.WriteString(b.Text + "\n")
+						}
+						for _, t := range s.Tables {
+							for _, row := range t.Rows {
+								for _, cell := range row {
+									sb.WriteString(cell.Text + "\t")
+								}
+							}
+						}
+						unit("pptx.Slide", j, sb.String())
+					}
+				}
+			}
+		case "xlsx":
+			if xr, err := xlsx.Open(path); err == nil {
+				defer xr.Close()
+				for j := 0; j < xr.SheetCount(); j++ {
+					if sh, err := xr.Sheet(j); err == nil && sh != nil {
+						var sb strings.Builder
+						for _, row := range sh.Rows {
+							for _, cell := range row {
+								sb.WriteString(cell.Value + "\t")
+							}
+						}
+						unit("xlsx.Sheet", j, sb.String())
+					}
+				}
+			}
+		case "epub":
+			if er, err := epubdoc.Open(path); err == nil {
+				defer er.Close()
+				for j, ch := range er.Chapters() {
+					unit("epubdoc.Chapters", j, string(ch.Content))
+				}
+			}
+		}
+	})
+	seen := map[string]bool{}
+	for _, f := range fails {
+		if !seen[f.class] {
+			seen[f.class] = true
+			c.Fail("", f.class, id, f.what, detail)
+		}
+	}
+}
+
 func hasFeature(m *pkgModel, f string) bool {
 	for _, x := range m.Features {
 		if x == f {
@@ -454,6 +651,7 @@ func Run(c *fw.Ctx) {
 			c.Fail(finding, f.class, id, f.what, detail)
 		}
 	})
+	c.Parallel(c.N(240, 3000), func(i int) { runDamagedPart(c, i) })
 	if c.Only == "" && c.Evaluations() < int64(n) {
 		c.Inconclusive("fewer cases executed than planned")
 	}
